@@ -56,8 +56,8 @@ def tlaset(xs):
     return '{' + ', '.join(('"%s"' % x) if isinstance(x, str) else str(x) for x in xs) + '}'
 
 
-def rcfg(id, dl, chunks, maxarr, events, maxt, inittok):
-    return dict(id=id, dl=dl, chunks=chunks, maxarr=maxarr, events=events, maxt=maxt, inittok=inittok)
+def rcfg(id, dl, chunks, maxarr, events, maxt, inittok, cb=False):
+    return dict(id=id, dl=dl, chunks=chunks, maxarr=maxarr, events=events, maxt=maxt, inittok=inittok, cb=cb)
 
 
 def fcfg(id, qcap, preload, wdl, maxt):
@@ -67,9 +67,9 @@ def fcfg(id, qcap, preload, wdl, maxt):
 def mkrun(name, modes, rcfgs, fcfgs, maxbacklog=2, scap=2, spre=1, cwt=1, smaxt=1, props=None, invs=None):
     """One TLC run: every behaviour picks its mode and configuration in Init."""
     mc = 'MC_Blocking_%s' % name
-    rtxt = ', '.join('[id |-> %d, dl |-> <<%s>>, chunks |-> %s, maxarr |-> %d, events |-> %s, maxt |-> %d, inittok |-> %s]' % (
+    rtxt = ', '.join('[id |-> %d, dl |-> <<%s>>, chunks |-> %s, maxarr |-> %d, events |-> %s, maxt |-> %d, inittok |-> %s, cb |-> %s]' % (
         r['id'], ', '.join(map(str, r['dl'])), tlaset(r['chunks']), r['maxarr'], tlaset(r['events']), r['maxt'],
-        tlaset(r['inittok'])) for r in rcfgs)
+        tlaset(r['inittok']), 'TRUE' if r.get('cb') else 'FALSE') for r in rcfgs)
     ftxt = ', '.join('[id |-> %d, qcap |-> %d, preload |-> %d, wdl |-> %d, maxt |-> %d]' % (
         f['id'], f['qcap'], f['preload'], f['wdl'], f['maxt']) for f in fcfgs)
     if invs is None:
@@ -89,6 +89,10 @@ def mkrun(name, modes, rcfgs, fcfgs, maxbacklog=2, scap=2, spre=1, cwt=1, smaxt=
 
 
 ALLEV = ['arr', 'half', 'close', 'sess']
+# callback mode: the reader is the callback goroutine, blocked in ReadBytes(2) inside OnData after a 1-byte message
+CB7 = rcfg(7, [0], [1], 2, ALLEV, 0, [0], cb=True)
+CB8 = rcfg(8, [1], [1], 1, ['arr', 'half'], 1, [0], cb=True)       # ... with a read deadline
+CB_SLUG = 'callback-close-leaves-reader-blocked'
 
 
 def configs(tier):
@@ -99,6 +103,7 @@ def configs(tier):
         rcfg(5, [0], [1], 2, ['arr', 'close', 'sess'], 0, [0]),
         # two reads with deadlines (timer reuse across calls), data and peer close
         rcfg(2, [1, 2], [2], 1, ['arr', 'half'], 2, [0]),
+        CB7, CB8,
     ], [
         # Flush against a full queue: attempt 0 + 10 retries; the peer may drain the queue, close; the session may close
         fcfg(1, 1, 1, 0, 0),
@@ -151,7 +156,7 @@ def label(l):
     return m.group(1), int(m.group(2) or 0)
 
 
-RPOS = {'idle': 'idle', 'ps': 'ps', 'a1': 'mv', 'a2': 'mv', 'bm1': 'mv', 'bm2': 'mv', 'm1': 'mv', 'm2': 'mv', 'c1': 'mv', 'c2': 'mv', 'b': 'st', 'b2': 'st',
+RPOS = {'idle': 'idle', 'ps': 'ps', 'g1': 'mv', 'g2': 'st', 'g3': 'mv', 'a1': 'mv', 'a2': 'mv', 'bm1': 'mv', 'bm2': 'mv', 'm1': 'mv', 'm2': 'mv', 'c1': 'mv', 'c2': 'mv', 'b': 'st', 'b2': 'st',
         'c3': 'st', 'sel': 'sel'}
 
 
@@ -273,12 +278,14 @@ def greedy(scheds, paths, b, rng):
     return [scheds[i] for i in chosen]
 
 
-KNOWN_ACTIONS = set('''RStart R_a1 R_a2 R_b R_bm1 R_bm2 R_b2 R_enter R_selTok R_selCls R_selTmr R_m1 R_m2 R_c1 R_c2 R_c3 ArrBegin ArrAdd
+KNOWN_ACTIONS = set('''RStart R_g1 R_g2 R_g3 CloseCb R_a1 R_a2 R_b R_bm1 R_bm2 R_b2 R_enter R_selTok R_selCls R_selTmr R_m1 R_m2 R_c1 R_c2 R_c3 ArrBegin ArrAdd
 ArrNotify HalfClose CloseCAS CloseFin SessNotify SessLambda TimerFire RTick FStart FAttempt FWaitTimer FWaitDeadline FWaitClosed
 Consume FHalfClose FSessClose FTick AStart ASelStream ASelShut NewStream ASessClose SStart SEnq SShut STimeout SAck STimerFire
 LoopTake LoopWritten LoopWriteFails LoopExit KStart KSend KShut SUnblock SSessClose SSessLambda STick IStart PeerReply PeerClose
 GoDone GoFail IResult ITimeout IJoin ITick'''.split())
 PRE = ['RStart', 'R_a1', 'R_a2', 'R_b']      # the reader has seen an empty buffer and an open stream: parked in front of the select
+CBPRE = ['ArrBegin(1)', 'ArrAdd', 'ArrNotify', 'R_g1', 'R_g2', 'R_g3', 'R_a1', 'R_a2', 'R_enter', 'R_selTok', 'R_m1', 'R_m2',
+         'R_enter']     # first message -> callback goroutine -> OnData -> ReadBytes(2) blocked in readMore's select
 MUST = [
     # (name, mode, configuration, behaviour, repetitions quick/thorough)
     # the read timer fires while the reader is outside the select and the read returns by another arm - the next read must
@@ -300,6 +307,14 @@ MUST = [
     # ... a second message is added after the first moveTo of the close arm (the session dies while it is being delivered)
     ('select-close-then-second-message', 'read', 5, PRE + ['ArrBegin(1)', 'ArrAdd', 'ArrNotify', 'ArrBegin(1)', 'SessNotify',
                                                            'R_enter', 'R_selCls', 'R_c1', 'ArrAdd', 'ArrNotify', 'R_c2'], (8, 16)),
+    # callback mode: OnData's ReadBytes(2) is blocked in the select after a 1-byte message; then the releasing event
+    ('cb-blocked-peer-close', 'read', 7, CBPRE + ['HalfClose', 'R_selCls', 'R_c1', 'R_c2', 'R_c3'], (4, 10)),
+    ('cb-blocked-more-data', 'read', 7, CBPRE + ['ArrBegin(1)', 'ArrAdd', 'ArrNotify', 'R_selTok', 'R_m1', 'R_m2'], (2, 6)),
+    ('cb-blocked-session-close', 'read', 7, CBPRE + ['SessNotify', 'R_selCls', 'R_c1', 'R_c2', 'R_c3'], (2, 6)),
+    ('cb-blocked-deadline', 'read', 8, CBPRE + ['RTick', 'TimerFire', 'R_selTmr'], (1, 3)),
+    # ... a local Close from another goroutine is only deferred in callback mode (lead of finding CB_SLUG)
+    ('cb-blocked-local-close', 'read', 7, CBPRE + ['CloseCb'], (2, 4)),
+    ('cb-blocked-local-close-then-peer-close', 'read', 7, CBPRE + ['CloseCb', 'HalfClose'], (1, 2)),
     # the queue stays full and nothing else happens: Flush gives up after attempt 0 + 10 retries
     ('flush-queue-stays-full', 'flush', 1, ['FStart'] + ['FAttempt', 'FWaitTimer'] * 10 + ['FAttempt'], (1, 1)),
     # the send loop is stuck in a blocked write: waitForSend times out waiting for the result / for room in sendCh
@@ -325,7 +340,7 @@ def must_schedules(g, consts, tier, modes=None):
                         'steps': [{'a': label(l)[0], 'k': label(l)[1]} for l in lbls], 'init_tok': 0, 'need': consts['need'],
                         'deadlines': list(st['rc']['dl']), 'qcap': st['fc']['qcap'], 'preload': st['fc']['preload'],
                         'wdeadline': st['fc']['wdl'], 'scap': consts['scap'], 'spre': consts['spre'], 'cwt': consts['cwt'],
-                        'peer_died': False, 'eager': False})
+                        'peer_died': False, 'eager': False, 'cb': bool(st['rc'].get('cb'))})
     return out, missing
 
 
@@ -366,7 +381,7 @@ def schedules_from(g, rng, budget):
                   'init_tok': st.get('tok', 0), 'need': g.cfg['consts']['need'], 'deadlines': list(st['rc']['dl']),
                   'qcap': st['fc']['qcap'], 'preload': st['fc']['preload'], 'wdeadline': st['fc']['wdl'],
                   'scap': g.cfg['consts']['scap'], 'spre': g.cfg['consts']['spre'], 'cwt': g.cfg['consts']['cwt'],
-                  'peer_died': False}
+                  'peer_died': False, 'cb': bool(st['rc'].get('cb'))}
             mine.append(sc)
         key = '%s%d' % (mode, cid)
         totals[key] = totals.get(key, 0) + len(mine)
@@ -492,13 +507,36 @@ def run(prop, tier, seed, replay=None):
         warm.result()
     except Exception:
         pass
+    known_cb = ('C11', CB_SLUG) in known
+    for sc in allsched:
+        sc['known_cb'] = known_cb
+    # lead: what the property asks for (a close by either end releases the reader) on the callback-mode configuration
+    lead = ex.submit(run_cb_lead)
     job = {'schedules': allsched, 'bound_ms': 10000, 'tick_ms': 150}
     g = gorun.run_harness('^TestVS_Blocking$', HARNESS, INSTR, inputs={'job': job}, timeout=2400)
     if g.result is None:
         ck.inconc('harness produced no result (rc=%d): %s' % (g.rc, g.out[-2500:]))
         return ck.finish()
+    lcfg, lres = lead.result()
+    if 'Temporal property ReadReturnsAnyClose was violated' in lres.out or lres.violation == 'temporal':
+        trace = tlc.parse_error_trace(lres.out)
+        ck.cov['callback_close_lead'] = ('TLC refutes ReadReturnsAnyClose for the callback-mode configuration (%d-state counterexample, '
+                                         '%d distinct states, %.0fs): %s' % (len(trace), lres.distinct, lres.wall,
+                                                                           ' '.join(label(l)[0] for (l, _s) in trace[1:])))
+        ck.add('states', lres.distinct)
+        ck.add('transitions', lres.generated)
+    elif lres.ok:
+        ck.cov['callback_close_lead'] = 'TLC proves ReadReturnsAnyClose for the callback-mode configuration (%d states)' % lres.distinct
+    else:
+        ck.notes.append('the TLC run for ReadReturnsAnyClose did not complete: %s' % (lres.error or lres.out[-300:]))
     handle(ck, g.result, bygraph, known)
     return ck.finish()
+
+
+def run_cb_lead():
+    cfg = mkrun('cblead', ['read'], [CB7], [], props=['ReadReturnsAnyClose'], invs=[])
+    res = tlc.run(cfg['module'], cfg['cfg'], workers=2, timeout=900, extra_files=cfg['files'], tlc_args=['-lncheck', 'final'])
+    return cfg, res
 
 
 def handle(ck, r, bygraph, known):
@@ -542,6 +580,14 @@ def handle(ck, r, bygraph, known):
     if drift:
         ck.notes.append('%d recorded runs are not behaviours of the specification (first: %s)' % (len(drift), drift[0]))
     ck.cov['wake_slow_path_stuck_runs'] = r.get('wake_stuck', 0)
+    ck.cov['callback_local_close_reader_left_blocked_runs'] = r.get('cb_close_blocked', 0)
+    if r.get('cb_close_blocked'):
+        if ('C11', CB_SLUG) in known:
+            ck.known(CB_SLUG, '%s [reproduced on the real code in %d staged runs: %s]' % (
+                known[('C11', CB_SLUG)][:200], r['cb_close_blocked'], r['cb_close_witness'][:700]))
+            ck.cov['known_finding_class_executions_pruned'] = r['cb_close_blocked']
+    elif ('C11', CB_SLUG) in known:
+        ck.notes.append('the listed finding %s did not reproduce in this run' % CB_SLUG)
     if r.get('eos_with_data'):
         ck.notes.append('observation outside C11 (lead for C07): ReadBytes returned end-of-stream although enough bytes had been '
                         'delivered, %d runs; e.g. %s' % (r['eos_with_data'], r['eos_witness']))
